@@ -76,6 +76,20 @@ def build(recipe, model, mods):
         if recipe.get("as") == "float":
             v = float(v)
         return v
+    if "text" in recipe:
+        out = []
+        for pc in recipe["text"]:
+            if "intstr" in pc:
+                out.append(str(int(build(pc["intstr"], model, mods))))
+            elif "dec" in pc:
+                v = float(build(pc["dec"], model, mods))
+                t = ("%.6f" % v).rstrip("0")
+                if t.endswith("."):
+                    t += "0"
+                out.append(t.replace(".", pc["mark"]))
+            else:
+                out.append(pc["lit"])
+        return "".join(out)
     if "tuple" in recipe:
         return tuple(build(x, model, mods) for x in recipe["tuple"])
     if "list" in recipe:
@@ -200,6 +214,10 @@ def replay(rep, repo, verbose=True):
     mods["data"].CALENDAR.set_mode(mode)
     ns = native_ns(mods, mode)
     args = {k: build(r, rep["model"], mods) for k, r in rep["recipe"].items()}
+    _m = rep["model"]
+    ns["fld"] = lambda n: num(_m.get("p:" + n, 0), "Int")
+    ns["fldq"] = lambda n: num(_m.get("p:" + n, 0), "Real")
+    ns["fldr"] = lambda n: num(_m.get("p:" + n + ".frac", 0), "Real")
     if "patch_time" in rep:
         import time as _t
 
